@@ -61,6 +61,19 @@ func seckeyOf(v *big.Int) groupsig.Seckey {
 	return sk
 }
 
+// refG1 is H(m) from the independent reference (never from the code under test): the oracle
+// fields of verify/sign lines and every generated point come from here, so a defect of
+// HashToPoint / hashToG1 cannot make both sides agree on a wrong or undecodable point.
+func refG1(msg []byte) *bn.G1 {
+	x, y := refHashPoint(msg)
+	g := new(bn.G1)
+	if _, err := g.Unmarshal(append(pad32(x), pad32(y)...)); err != nil {
+		panic("reference hash point does not decode: " + err.Error())
+	}
+	return g
+}
+
+// hashG1 is the code under test (bn256.G1.HashToPoint), used only by the `h2p` op.
 func hashG1(msg []byte) *bn.G1 {
 	g := new(bn.G1)
 	g.HashToPoint(msg)
@@ -124,7 +137,7 @@ func pairOracle(pkb, msg, sigb []byte, raw bool) string {
 	}
 	return hx.Guard(func() string {
 		p1 := bn.Pair(s, bn.GetG2Base())
-		p2 := bn.Pair(hashG1(msg), k)
+		p2 := bn.Pair(refG1(msg), k)
 		return b01(bn.PairIsEuqal(p1, p2))
 	})
 }
@@ -137,13 +150,13 @@ func complete(line string) string {
 		msg, ok2 := unhex(w[2])
 		sigb, ok3 := unhex(w[3])
 		if ok1 && ok2 && ok3 {
-			hm := hashG1(msg).Marshal()
+			hm := refG1(msg).Marshal()
 			return strings.Join([]string{w[0], w[1], w[2], w[3], hx.Hex(hm), pairOracle(pkb, msg, sigb, w[0] == "verify-raw")}, " ")
 		}
 	}
 	if len(w) >= 3 && w[0] == "sign" {
 		if msg, ok := unhex(w[2]); ok {
-			return strings.Join([]string{w[0], w[1], w[2], hx.Hex(hashG1(msg).Marshal())}, " ")
+			return strings.Join([]string{w[0], w[1], w[2], hx.Hex(refG1(msg).Marshal())}, " ")
 		}
 	}
 	if len(w) >= 2 && w[0] == "h2p" {
@@ -358,12 +371,16 @@ func (g *gen) sk() *big.Int {
 	}
 }
 
-// message lengths cycle through the classes so that every run has empty, one-block,
-// just-over-one-block and long messages
+// message classes cycle so that every run has empty, one-block, just-over-one-block and long
+// messages AND messages whose hash point has a short (leading-zero-byte) x or y coordinate
 func (g *gen) msg() []byte {
-	r := g.r
 	g.nmsg++
-	switch g.nmsg % 6 {
+	return g.msgClass(g.nmsg % 8)
+}
+
+func (g *gen) msgClass(c int) []byte {
+	r := g.r
+	switch c {
 	case 0:
 		return []byte{}
 	case 1:
@@ -372,8 +389,88 @@ func (g *gen) msg() []byte {
 		return []byte{byte(r.Intn(4))}
 	case 3:
 		return r.Bytes(33 + r.Intn(8))
+	case 4:
+		return shortCoordMsg(r, "x", 248)
+	case 5:
+		return shortCoordMsg(r, "y", 248)
+	case 6:
+		return r.Bytes(64)
 	default:
 		return r.Bytes(1 + r.Intn(70))
+	}
+}
+
+// refHashPoint is an INDEPENDENT reference of hashToCurvePoint (crypto/sha256 + math/big):
+// x = SHA-256(m) mod p, increment until x^3+3 is a square, y = that square root ((p+1)/4 power).
+func refHashPoint(msg []byte) (*big.Int, *big.Int) {
+	d := sha256.Sum256(msg)
+	x := new(big.Int).SetBytes(d[:])
+	x.Mod(x, bigP)
+	e := new(big.Int).Add(bigP, big.NewInt(1))
+	e.Rsh(e, 2)
+	for {
+		t := new(big.Int).Exp(x, big.NewInt(3), bigP)
+		t.Add(t, big.NewInt(3))
+		t.Mod(t, bigP)
+		y := new(big.Int).Exp(t, e, bigP)
+		if new(big.Int).Exp(y, big.NewInt(2), bigP).Cmp(t) == 0 {
+			return new(big.Int).Mod(x, bigP), y
+		}
+		x.Add(x, big.NewInt(1))
+	}
+}
+
+// shortCoordMsg searches (reference implementation only, never the code under test) for a
+// message whose hash point has coordinate `which` below 2^bits. Lengths vary 1..48 bytes.
+func shortCoordMsg(r *hx.Rng, which string, bits int) []byte {
+	base := r.Bytes(1 + r.Intn(44))
+	for ctr := uint32(0); ; ctr++ {
+		m := append(append([]byte{}, base...), byte(ctr>>24), byte(ctr>>16), byte(ctr>>8), byte(ctr))
+		if which == "x" {
+			// cheap pre-filter on the digest; the increment loop moves x by a few units at most
+			d := sha256.Sum256(m)
+			x0 := new(big.Int).SetBytes(d[:])
+			if x0.Mod(x0, bigP).BitLen() > bits {
+				continue
+			}
+		}
+		x, y := refHashPoint(m)
+		if which == "x" && x.BitLen() <= bits {
+			return m
+		}
+		if which == "y" && y.BitLen() <= bits {
+			return m
+		}
+	}
+}
+
+// relatedMsgs: messages of varied lengths that share prefixes / suffixes with each other
+// (same last 32 bytes, same first 32 bytes, one a prefix / suffix of the other, zero-padded
+// variants) — what a truncating, padding or caching hash path would confuse.
+func (g *gen) relatedMsgs() []cand {
+	r := g.r
+	b := r.Bytes(32)
+	b[0] |= 1 // no leading zero, so the stripped variants differ
+	cat := func(xs ...[]byte) []byte {
+		var o []byte
+		for _, x := range xs {
+			o = append(o, x...)
+		}
+		return o
+	}
+	junk := r.Bytes(32)
+	return []cand{
+		{"base32", cat(b)},
+		{"junk+base", cat(junk, b)},              // 64 bytes, same last 32
+		{"junk2+base", cat(r.Bytes(32), b)},      // another 64 bytes with the same last 32
+		{"base+junk", cat(b, junk)},              // 64 bytes, same first 32
+		{"zero+base", cat([]byte{0}, b)},         // left zero padding
+		{"zeros32+base", cat(make([]byte, 32), b)},
+		{"base+zero", cat(b, []byte{0})},         // right zero padding
+		{"base-tail31", cat(b[1:])},              // proper suffix
+		{"zero+tail31", cat([]byte{0}, b[1:])},   // suffix left-padded to 32
+		{"base-head31", cat(b[:31])},             // proper prefix
+		{"base+byte", cat(b, []byte{byte(r.U64())})},
 	}
 }
 
@@ -402,7 +499,7 @@ func (g *gen) point() []byte {
 	case 0:
 		return new(bn.G1).ScalarBaseMult(g.sk()).Marshal()
 	default:
-		return hashG1(g.r.Bytes(8)).Marshal()
+		return refG1(g.r.Bytes(8)).Marshal()
 	}
 }
 
@@ -416,8 +513,14 @@ func (g *gen) sigCandidates(sk *big.Int, msg []byte) []cand {
 	r := g.r
 	honest := groupsig.Sign(seckeyOf(sk), msg)
 	hb := honest.Serialize()
-	hp, _ := ptOf(hx.Hex(hb))
-	cs := []cand{{"honest", hb}}
+	// the algebraically related candidates are built from the REFERENCE point sk·H(m), so that a
+	// defect in Sign / the hash path cannot crash or blind the generator
+	refPt := func(m []byte, k *big.Int) *bn.G1 { return new(bn.G1).ScalarMult(refG1(m), k) }
+	hp := refPt(msg, sk)
+	if len(hb) != 64 {
+		hb = hp.Marshal()
+	}
+	cs := []cand{{"honest", honest.Serialize()}}
 	add := func(c string, b []byte) {
 		if b != nil {
 			cs = append(cs, cand{c, b})
@@ -459,12 +562,12 @@ func (g *gen) sigCandidates(sk *big.Int, msg []byte) []cand {
 	add("0-p", append(make([]byte, 32), pad32(bigP)...))
 	// algebraically related
 	add("neg", new(bn.G1).Neg(hp).Marshal())
-	hp2, _ := ptOf(hx.Hex(hb))
+	hp2 := refPt(msg, sk)
 	add("double", new(bn.G1).Add(hp, hp2).Marshal())
 	other := groupsig.Sign(seckeyOf(sk), append(append([]byte{}, msg...), 1))
 	ob := other.Serialize()
 	add("other-msg", ob)
-	op, _ := ptOf(hx.Hex(ob))
+	op := refPt(append(append([]byte{}, msg...), 1), sk)
 	add("sum", new(bn.G1).Add(hp, op).Marshal())
 	sk2 := new(big.Int).Add(sk, big.NewInt(1))
 	sk2.Mod(sk2, bigR)
@@ -474,7 +577,7 @@ func (g *gen) sigCandidates(sk *big.Int, msg []byte) []cand {
 	ok2 := groupsig.Sign(seckeyOf(sk2), msg)
 	add("other-key", ok2.Serialize())
 	add("plus-gen", new(bn.G1).Add(hp, new(bn.G1).ScalarBaseMult(big.NewInt(1))).Marshal())
-	add("hm-itself", hashG1(msg).Marshal())
+	add("hm-itself", refG1(msg).Marshal())
 	add("random-point", g.point())
 	add("random-64", r.Bytes(64))
 	add("swap-xy", append(append([]byte{}, hb[32:]...), hb[:32]...))
@@ -662,7 +765,7 @@ func runCorr(a map[string]string) {
 	g := &gen{r: hx.NewRng(hx.SeedFromEnv()), class: map[string]int{}}
 	r := g.r
 	thorough := a["tier"] == "thorough"
-	nkeys := hx.ArgInt(a, "keys", 6)
+	nkeys := hx.ArgInt(a, "keys", 8)
 	nmisc := hx.ArgInt(a, "misc", 120)
 	narith := hx.ArgInt(a, "arith", 24)
 	if thorough {
@@ -672,7 +775,15 @@ func runCorr(a map[string]string) {
 	//    and a few crossed pairs
 	for i := 0; i < nkeys; i++ {
 		sk := g.sk()
-		msg := g.msg()
+		msg := g.msgClass(i % 8)
+		if i%8 == 4 || i%8 == 5 {
+			// short hash coordinate: with sk = 1 the signature itself is the short point, so
+			// Marshal/Unmarshal/Sign/VerifySig all see a leading zero byte
+			if (i/8)%2 == 0 {
+				sk = big.NewInt(1)
+			}
+			g.count("msg:short-hash-coordinate")
+		}
 		sigs := g.sigCandidates(sk, msg)
 		pks := g.pkCandidates(sk)
 		for _, s := range sigs {
@@ -708,6 +819,54 @@ func runCorr(a map[string]string) {
 	// zero key: identity public key and identity signature
 	do("verify " + hx.Hex(make([]byte, 128)) + " " + hx.Hex([]byte("m")) + " " + hx.Hex(make([]byte, 64)))
 	do("verify-raw " + hx.Hex(make([]byte, 5)) + " " + hx.Hex([]byte("m")) + " " + hx.Hex(make([]byte, 64)))
+	// related messages within ONE process, every ordered pair: the signature of m1 against m2
+	for k := 0; k < 1+nkeys/8; k++ {
+		sk := g.sk()
+		pkb := groupsig.GeneratePubkey(seckeyOf(sk)).Serialize()
+		fam := g.relatedMsgs()
+		sigs := make([][]byte, len(fam))
+		for i, m := range fam {
+			do("sign " + sk.String() + " " + hx.Hex(m.b))
+			do("h2p " + hx.Hex(m.b))
+			s := groupsig.Sign(seckeyOf(sk), m.b)
+			sigs[i] = s.Serialize()
+		}
+		for i := range fam {
+			for j := range fam {
+				if i == j || (k > 0 && r.Intn(3) != 0) {
+					continue
+				}
+				g.count("related:" + fam[i].class + "->" + fam[j].class)
+				do("verify " + hx.Hex(pkb) + " " + hx.Hex(fam[j].b) + " " + hx.Hex(sigs[i]))
+			}
+		}
+		// and once more in the opposite temporal order: sign again after all the verifications
+		for _, m := range fam {
+			do("sign " + sk.String() + " " + hx.Hex(m.b))
+		}
+	}
+	// hash points with short coordinates (x or y below 2^248, one below 2^240): hash, sign, verify, decode
+	for k := 0; k < 4+nkeys/4; k++ {
+		which, bits := "x", 248
+		if k%2 == 1 {
+			which = "y"
+		}
+		if k == 2 {
+			bits = 240
+		}
+		m := shortCoordMsg(r, which, bits)
+		g.count(fmt.Sprintf("hash-short-%s-%d", which, bits))
+		do("h2p " + hx.Hex(m))
+		for _, sk := range []*big.Int{big.NewInt(1), g.sk()} {
+			do("sign " + sk.String() + " " + hx.Hex(m))
+			sg := groupsig.Sign(seckeyOf(sk), m)
+			sb := sg.Serialize()
+			pkb := groupsig.GeneratePubkey(seckeyOf(sk)).Serialize()
+			do("verify " + hx.Hex(pkb) + " " + hx.Hex(m) + " " + hx.Hex(sb))
+			do("sigd " + hx.Hex(sb))
+			do("g1u " + hx.Hex(sb))
+		}
+	}
 	// 2. G1 arithmetic and hashing
 	for i := 0; i < narith; i++ {
 		p := hx.Hex(g.point())
@@ -799,9 +958,12 @@ func main() {
 	case "search":
 		runSearch(a)
 	case "exec":
-		l := complete(a["line"])
-		fmt.Println(l)
-		fmt.Println(hx.Guard(func() string { return exec(l) }))
+		// several op lines separated by " ; " run in ONE process, in order (stateful replays)
+		for _, one := range strings.Split(a["line"], ";") {
+			l := complete(strings.TrimSpace(one))
+			fmt.Println(l)
+			fmt.Println(hx.Guard(func() string { return exec(l) }))
+		}
 	default:
 		runCorr(a)
 	}
